@@ -44,7 +44,36 @@ def _parse_call(t: Tmpl):
     return node, r, src
 
 
+def _ownership(repo: Repo, rep: Report) -> None:
+    """R14.8: library code only mutates containers it owns or the designed shared stores (core/ownership.py)."""
+    from ..core import ownership
+
+    for prob in ownership.positive_control():
+        rep.error(prob)
+    owned, shared, borrowed = ownership.analyse(repo)
+    rep.analysed["mutation_sites"] = {"owned": owned, "designed_shared": shared, "borrowed": len(borrowed)}
+    rep.ok("R14.8", f"{owned} in-place mutations act on containers the mutating function owns", None)
+    rep.ok("R14.8", f"{shared} in-place mutations act on designed shared stores ({len(ownership.SHARED)} table entries with reasons)", None)
+    if owned < 60:
+        rep.error(f"R14.8: only {owned} owned mutation sites analysed")
+    okb, bad = ownership.store_bindings(repo)
+    if okb < 5:
+        rep.error(f"R14.9: only {okb} store bindings found")
+    rep.ok("R14.9", f"{okb} bindings of per-builder stores ({', '.join(ownership.STORE_ATTRS)}) are fresh containers or constructor parameters", None)
+    for fi, txt, ln in bad:
+        rep.violation("R14.9", fi.key, f"per-builder store bound to a longer-lived object: `{txt}`",
+                      "the stores in which a builder keeps compiled helpers / names are trusted to belong to one builder (or one codec): binding one to a module-level or class-level "
+                      "container makes every later builder reuse what an earlier one compiled under other options (dialect, no_copy_collections, format)",
+                      loc=f"{fi.loc.split(':')[0]}:{ln}")
+    for fi, base, txt, ln in borrowed:
+        rep.violation("R14.8", fi.key, f"in-place write to `{base}`, which {fi.qualname} does not own",
+                      "the object is borrowed from a caller (class-level builder parameters shared by every dataclass of a mixin, Config / Dialect attributes, "
+                      "Field metadata, a caller's argument): the write leaks into every later compilation, so one class's behaviour depends on which classes were compiled before it",
+                      loc=f"{fi.loc.split(':')[0]}:{ln}", statement=txt)
+
+
 def run(repo: Repo, rep: Report, tier: str) -> None:
+    _ownership(repo, rep)
     c = corpus_mod.explore_all(repo, tier)
     for e in c.errors:
         rep.undecide("corpus", e)
